@@ -3,6 +3,8 @@
 // every callback type registered and re-entering the public API; built and run under ThreadSanitizer; lock-state invariants.
 #include "lc.h"
 #include <atomic>
+#include <csignal>
+#include <cstring>
 #include <pthread.h>
 #include <thread>
 using namespace verif;
@@ -10,7 +12,7 @@ using namespace verif;
 const char *verif_property_id = "C13";
 const char *verif_rule =
     "tape -> program of 2..8 application threads, each a list of 3..24 operations from {send CON / NON GET (plain, observable with Observe=0, delayed through an async entry), "
-    "coap_resource_notify_observers, client session create + release, server resource add + delete, cache key derive + delete, ping, request to a port nobody listens on (ICMP error, NACK without PDU), fan-out over 14 sessions (more ready sockets than one epoll_wait returns; optionally a slow response handler), 0..2 ms pause}, run against one server and one client context "
+    "coap_resource_notify_observers, client session create + release, server resource add + delete, cache key derive + delete, ping, pause (every other one interrupts both I/O threads with a handled signal: EINTR), request to a port nobody listens on (ICMP error, NACK without PDU), fan-out over 14 sessions (more ready sockets than one epoll_wait returns; optionally a slow response handler), 0..2 ms pause}, run against one server and one client context "
     "(UDP on 127.0.0.1) whose coap_io_process() loops run in two further threads; request, response, NACK, event, ping and pong handlers are registered and re-enter the public API "
     "(coap_new_pdu + coap_send of a follow-up request from the response handler, coap_resource_notify_observers from a request handler, session getters from the others). "
     "Oracle: coap_threadsafe_is_supported() == 1 implies that locking code is compiled in (the library's lock state exists and is held by the calling thread inside callbacks); "
@@ -25,6 +27,10 @@ std::atomic<bool> g_stop{false}, g_slow_handler{false};
 coap_context_t *SCTX = nullptr, *CCTX = nullptr;
 coap_resource_t *OBS = nullptr;
 coap_address_t SRV_ADDR;
+pthread_t g_io_threads[2];
+std::atomic<bool> g_io_threads_set{false};
+std::atomic<unsigned> g_signals{0};
+void on_sigusr1(int) {}
 
 void probe_lock_in_callback() {
   // (no look at the lock state from here: handlers may run with the lock released, and reading the lock's bookkeeping without owning
@@ -159,7 +165,11 @@ void app_thread(unsigned id, std::vector<Op> ops, std::atomic<unsigned> *done) {
       for (auto s : fan) coap_session_release(s);
       break;
     }
-    default: std::this_thread::sleep_for(std::chrono::milliseconds(op.arg % 3)); break;
+    default:
+      // "pause"; every other one also interrupts the I/O threads with a handled signal (their epoll_wait() returns EINTR)
+      if ((op.arg & 4) && g_io_threads_set.load()) { pthread_kill(g_io_threads[0], SIGUSR1); pthread_kill(g_io_threads[1], SIGUSR1); g_signals++; }
+      std::this_thread::sleep_for(std::chrono::milliseconds(op.arg % 3));
+      break;
     }
   }
   // give answers a moment, then drop the session
@@ -173,6 +183,10 @@ void app_thread(unsigned id, std::vector<Op> ops, std::atomic<unsigned> *done) {
 void verif_init() {
   coap_startup();
   coap_set_log_level(getenv("C13_DEBUG") ? COAP_LOG_DEBUG : COAP_LOG_EMERG);
+  struct sigaction sa;
+  memset(&sa, 0, sizeof sa);
+  sa.sa_handler = on_sigusr1;   // no SA_RESTART: the interrupted call returns EINTR
+  sigaction(SIGUSR1, &sa, nullptr);
 }
 
 int verif_case(const uint8_t *tape, size_t tlen, Info *info) {
@@ -182,7 +196,7 @@ int verif_case(const uint8_t *tape, size_t tlen, Info *info) {
   info->fail("coap_threadsafe_is_supported() returns 1 but the library is compiled without its locking code (COAP_THREAD_SAFE evaluates to 0)");
   return VIOLATION;
 #else
-  g_reentries = 0; g_responses = 0; g_requests = 0; g_lock_not_held = 0; g_followups = 0;
+  g_reentries = 0; g_responses = 0; g_requests = 0; g_lock_not_held = 0; g_followups = 0; g_signals = 0;
   g_stop = false;
   unsigned nthreads = t.range(2, 8);
   g_slow_handler = t.chance(100);
@@ -226,12 +240,16 @@ int verif_case(const uint8_t *tape, size_t tlen, Info *info) {
   int verdict = HELD;
   {
     std::thread sio(io_loop, SCTX), cio(io_loop, CCTX);
+    g_io_threads[0] = sio.native_handle();
+    g_io_threads[1] = cio.native_handle();
+    g_io_threads_set = true;
     std::atomic<unsigned> done{0};
     std::vector<std::thread> apps;
     for (unsigned i = 0; i < nthreads; i++) apps.emplace_back(app_thread, i, progs[i], &done);
     for (auto &a : apps) a.join();
     std::this_thread::sleep_for(std::chrono::milliseconds(10));
     g_stop = true;
+    g_io_threads_set = false;
     sio.join();
     cio.join();
   }
@@ -249,6 +267,7 @@ int verif_case(const uint8_t *tape, size_t tlen, Info *info) {
   info->rs(hb);
   info->rs(render);
   info->nontrivial = nthreads >= 2 && g_reentries.load() > 0;
+  if (g_signals.load()) info->label("signal-interrupts-io-threads");
   info->mix(render.data(), render.size());
   return verdict;
 #endif
